@@ -107,8 +107,13 @@ PPL::Sparse_Row::Sparse_Row(const PPL::Dense_Row& row)
 
 PPL::Sparse_Row::Sparse_Row(const Dense_Row& row, dimension_type sz,
                             dimension_type capacity)
-  : tree(Sparse_Row_from_Dense_Row_helper_iterator(row, row.size()),
-         Sparse_Row_from_Dense_Row_helper_function(row, row.size())),
+  // Only the elements having index less than `sz' have to be copied.
+  : tree(Sparse_Row_from_Dense_Row_helper_iterator(row,
+                                                   (sz < row.size())
+                                                   ? sz : row.size()),
+         Sparse_Row_from_Dense_Row_helper_function(row,
+                                                   (sz < row.size())
+                                                   ? sz : row.size())),
     size_(sz) {
   (void)capacity;
   PPL_ASSERT(OK());
